@@ -21,7 +21,7 @@ pub struct C15;
 /// content of a configuration file
 #[derive(Clone, Copy, Debug, PartialEq, Eq, Hash)]
 pub enum Content {
-    /// a valid configuration of the family, variant 0-3
+    /// a valid configuration of the family, variant 0-7
     Valid(u8),
     /// unbalanced parenthesis
     BrokenSyntax,
@@ -58,12 +58,21 @@ pub struct LCase {
 }
 
 /// Valid configurations: same defsrc, different outputs, different first-layer names.
+/// Variants 4-7 are variants 0-3 with a zippychord dictionary (one chord, q+r).
 fn valid_text(v: u8) -> String {
+    let zip = v % 8 >= 4;
     let v = v % 4;
-    let (o1, o2, o3) = [("x", "1", "m"), ("y", "2", "n"), ("z", "3", "o"), ("w", "4", "p")][v as usize];
+    let (o1, o2, o3) = OUTS[v as usize];
+    let z = if zip { format!("(defzippy zippy{v}.txt on-first-press-chord-deadline 500 idle-reactivate-time 50)\n") } else { String::new() };
     format!(
-        "(defcfg log-layer-changes no)\n(defsrc a b c d e f g h i j k l)\n(deflayer base{v} {o1} (layer-while-held nav) (one-shot 60 lsft) lrld lrld-next lrld-prev (lrld-num 1) (lrld-num 2) (lrld-num 3) (macro {o3} 20 {o3}) S-{o1} (layer-switch nav))\n(deflayer nav {o2} _ _ lrld lrld-next lrld-prev (lrld-num 1) (lrld-num 2) (lrld-num 3) _ _ (layer-switch base{v}))\n"
+        "(defcfg log-layer-changes no)\n(defsrc a b c d e f g h i j k l q r)\n{z}(deflayer base{v} {o1} (layer-while-held nav) (one-shot 60 lsft) lrld lrld-next lrld-prev (lrld-num 1) (lrld-num 2) (lrld-num 3) (macro {o3} 20 {o3}) S-{o1} (layer-switch nav) _ _)\n(deflayer nav {o2} _ _ lrld lrld-next lrld-prev (lrld-num 1) (lrld-num 2) (lrld-num 3) _ _ (layer-switch base{v}) _ _)\n"
     )
+}
+const OUTS: [(&str, &str, &str); 4] = [("x", "1", "m"), ("y", "2", "n"), ("z", "3", "o"), ("w", "4", "p")];
+/// the dictionary file of variant 4 + v
+fn zippy_file(v: u8) -> (String, String) {
+    let (o1, _, o3) = OUTS[v as usize % 4];
+    (format!("zippy{}.txt", v % 4), format!("qr\t{o1}{o3}{o1}\n"))
 }
 
 fn content_json(c: &Content) -> Value {
@@ -258,9 +267,13 @@ fn reload_notes(notes: &[String]) -> Vec<String> {
     out
 }
 
-/// The probe: tap a; hold b (layer) and tap a; tap k (output chord). Returns the key presses seen.
+/// The probe: q+r together (a zippychord chord in variants 4-7); tap a; hold b (layer) and tap a; tap k (output chord). Returns the key presses seen.
 fn probe(l: &mut Live) -> Vec<String> {
     l.drain();
+    l.send("q", true);
+    l.send("r", true);
+    l.send("q", false);
+    l.send("r", false);
     l.tap("a");
     l.send("b", true);
     l.tap("a");
@@ -293,10 +306,17 @@ fn seq(o: &[Out]) -> Vec<String> {
         })
         .collect()
 }
-/// what a freshly started instance of the given content answers to the probe
+/// what a freshly started instance of the given content answers to the probe. Computed for all
+/// variants before the first real-thread instance starts: the zippychord state is global to the
+/// process, a second instance would reconfigure it under the running one.
 fn fresh_probe(v: u8) -> Vec<String> {
-    let mut s = Sim::new(&valid_text(v)).expect("family config parses");
-    for (key, press) in [("a", true), ("a", false), ("b", true), ("a", true), ("a", false), ("b", false), ("k", true), ("k", false)] {
+    static FRESH: std::sync::OnceLock<Vec<Vec<String>>> = std::sync::OnceLock::new();
+    FRESH.get_or_init(|| (0u8..8).map(fresh_probe_compute).collect())[v as usize % 8].clone()
+}
+fn fresh_probe_compute(v: u8) -> Vec<String> {
+    let files: std::collections::HashMap<String, String> = (0u8..4).map(zippy_file).collect();
+    let mut s = Sim::new_with_files(&valid_text(v), files).expect("family config parses");
+    for (key, press) in [("q", true), ("r", true), ("q", false), ("r", false), ("a", true), ("a", false), ("b", true), ("a", true), ("a", false), ("b", false), ("k", true), ("k", false)] {
         if press {
             s.press(code_of(key));
         } else {
@@ -341,6 +361,11 @@ fn judge_once(c: &LCase, mult: u64) -> Verdict {
     for (i, f) in c.files.iter().enumerate() {
         write_file(&dir, i, f);
     }
+    for z in 0u8..4 {
+        let (name, text) = zippy_file(z);
+        std::fs::write(dir.join(name), text).expect("write scratch dictionary");
+    }
+    let _ = fresh_probe(0);
     let paths: Vec<PathBuf> = (0..3).map(|i| dir.join(format!("cfg{i}.kbd"))).collect();
     let args = ValidatedArgs {
         paths: paths.clone(),
@@ -446,6 +471,9 @@ fn judge_once(c: &LCase, mult: u64) -> Verdict {
                 idx = ni;
                 match res {
                     Some(nv) => {
+                        if active >= 4 && nv < 4 {
+                            v.classes.push("dictionary-to-no-dictionary");
+                        }
                         active = nv;
                         relative_after_failure = false;
                         let want = vec![format!("reload:cfg{ni}.kbd"), format!("layer:base{}", nv % 4)];
@@ -591,7 +619,7 @@ impl TypedProp for C15 {
     fn info(&self) -> PropInfo {
         PropInfo {
             level: "exploration",
-            rule: "three configuration files on the command line; contents from a family of four valid configurations (same defsrc, different outputs and first-layer names; layer-while-held, one-shot, a macro, an output chord, lrld / lrld-next / lrld-prev / lrld-num 1-3 keys) or broken syntax / rejected by the parser / missing / a directory. Histories of 2-9 steps: rewrite a file, request a reload (plain, next, prev, num), request it while a key's output is held down (and probe notifications before the release), request it twice back-to-back, request it while another layer is active (layer-while-held key held, or after a layer-switch), make kanata busy right before (layer tap, one-shot, running macro), probe. Run on the real Kanata::start_processing_loop thread with real-time events 8 ms apart and simulated output. Oracle: a reference model of the active content (unchanged by a failed reload, replaced by a successful one, not before the held key's output is released); every probe (tap, layer-held tap, output chord) must equal what a freshly started deterministic instance of the active content answers; a successful reload sends exactly ConfigFileReload(file) then LayerChange(first layer), a failed one nothing; nothing stays down; no panic in the processing thread. Non-trivial: a failed reload or a request while a key is held occurs. Distinct: hash of the case.".into(),
+            rule: "three configuration files on the command line; contents from a family of eight valid configurations (same defsrc, four sets of outputs and first-layer names, each with and without a zippychord dictionary of one chord; layer-while-held, one-shot, a macro, an output chord, lrld / lrld-next / lrld-prev / lrld-num 1-3 keys) or broken syntax / rejected by the parser / missing / a directory. Histories of 2-9 steps: rewrite a file, request a reload (plain, next, prev, num), request it while a key's output is held down (and probe notifications before the release), request it twice back-to-back, request it while another layer is active (layer-while-held key held, or after a layer-switch), make kanata busy right before (layer tap, one-shot, running macro), probe. Run on the real Kanata::start_processing_loop thread with real-time events 8 ms apart and simulated output. Oracle: a reference model of the active content (unchanged by a failed reload, replaced by a successful one, not before the held key's output is released); every probe (two keys pressed together - the dictionary chord where there is one -, tap, layer-held tap, output chord) must equal what a freshly started deterministic instance of the active content answers; a successful reload sends exactly ConfigFileReload(file) then LayerChange(first layer), a failed one nothing; nothing stays down; no panic in the processing thread. Non-trivial: a failed reload or a request while a key is held occurs. Distinct: hash of the case.".into(),
             assumptions: vec![
                 "only time-insensitive behaviour is compared (real-time thread): sequences of key events, not their times".into(),
                 "after a failed lrld-next / lrld-prev the following requests are absolute (lrld-num): the statement does not say whether the file index advanced".into(),
@@ -608,7 +636,7 @@ impl TypedProp for C15 {
             },
             exhaustive: false,
             distinct_by_construction: false,
-            required_classes: vec!["reload-succeeded", "failed:broken-syntax", "failed:rejected", "failed:missing", "failed:unreadable", "requested-while-key-held", "requested-on-other-layer", "back-to-back", "lrld", "lrld-next", "lrld-prev", "lrld-num"],
+            required_classes: vec!["reload-succeeded", "failed:broken-syntax", "failed:rejected", "failed:missing", "failed:unreadable", "requested-while-key-held", "requested-on-other-layer", "back-to-back", "dictionary-to-no-dictionary", "lrld", "lrld-next", "lrld-prev", "lrld-num"],
             hang_secs: 120,
         }
     }
@@ -617,7 +645,7 @@ impl TypedProp for C15 {
     }
     fn strategy(&self, _tier: Tier, _key: u32) -> BoxedStrategy<LCase> {
         let content = prop_oneof![
-            5 => (0u8..4).prop_map(Content::Valid),
+            5 => (0u8..8).prop_map(Content::Valid),
             1 => Just(Content::BrokenSyntax),
             1 => Just(Content::Rejected),
             1 => Just(Content::Missing),
@@ -632,7 +660,7 @@ impl TypedProp for C15 {
             1 => (0u8..3).prop_map(Step::Busy),
             2 => Just(Step::Probe),
         ];
-        ((0u8..4), prop::collection::vec(content, 2..=2), prop::collection::vec(step, 2..10))
+        ((0u8..8), prop::collection::vec(content, 2..=2), prop::collection::vec(step, 2..10))
             .prop_map(|(v0, rest, steps)| {
                 let mut files = vec![Content::Valid(v0)];
                 files.extend(rest);
